@@ -1231,6 +1231,13 @@ int main(int argc, char** argv) {
     path = O.outdir + "/" + O.tag + ".cov";
     f = fopen(path.c_str(), "wb");
     if (f) { fwrite(g_cov, 1, g_cov_n, f); fclose(f); }
+    {
+      std::map<std::string, std::pair<int, int>> byfn;
+      coverage_by_function(byfn);
+      path = O.outdir + "/" + O.tag + ".fncov";
+      f = fopen(path.c_str(), "w");
+      if (f) { for (auto& kv : byfn) fprintf(f, "%s %d %d\n", kv.first.c_str(), kv.second.first, kv.second.second); fclose(f); }
+    }
     path = O.outdir + "/" + O.tag + ".sched";
     f = fopen(path.c_str(), "wb");
     if (f) { for (uint64_t h : TT.sched_hashes) fwrite(&h, 8, 1, f); fclose(f); }
